@@ -122,7 +122,7 @@ func (pw *pipeWorld) request(c *Ctx, body []bodyStep, aclMode string) (pipeReq, 
 	for i, a := range args {
 		at[i] = coqStr(a)
 	}
-	term := fmt.Sprintf("(AuthIn 2 %s %s %s %s %s %s %s)", coqStr("script"), coqList(at), coqStr("tt"), coqStr("tt"), aclTerm, coqList(keys), coqList(ac.sigSyms))
+	term := fmt.Sprintf("(AuthIn 2 %s %s %s %s %s %s %s (Some %s))", coqStr("script"), coqList(at), coqStr("tt"), coqStr("tt"), aclTerm, coqList(keys), coqList(ac.sigSyms), coqStr("tt"))
 	c.Count("pipe_request_" + tamper + "_acl_" + aclMode)
 	return pipeReq{term: term, args: args, bi: bi}, acc, aclMode
 }
